@@ -23,6 +23,8 @@
 (*   Esc    = "raw"   cell text written without escaping '|'               *)
 (*   Header = "dup"   a header-less table writes its first row as header   *)
 (*                    and again as the first body row                      *)
+(*   Header = "afterlast"  the delimiter row is written after the last of  *)
+(*                    the leading rows the source marks as header rows     *)
 (*   Merge  = "skip"  positions covered by a merged cell are skipped and   *)
 (*                    the row is padded at its end                         *)
 (***************************************************************************)
@@ -55,8 +57,12 @@ RowCells(t, r) ==
 RowLine(t, r) == [t |-> "row", cells |-> RowCells(t, r)]
 
 TableLines(t) ==
-    LET first == IF Header = "dup" /\ ~t.hdr /\ t.nr > 1 THEN 1 ELSE 2
-    IN <<RowLine(t, 1), [t |-> "sep", n |-> t.nc]>> \o [x \in 1..(t.nr - first + 1) |-> RowLine(t, first + x - 1)]
+    IF Header = "afterlast" /\ LeadMarked(t.hm, t.nr) >= 2
+    THEN \* the delimiter row after the LAST of the leading rows the source marks as header
+         LET h == LeadMarked(t.hm, t.nr) IN
+         [x \in 1..h |-> RowLine(t, x)] \o <<[t |-> "sep", n |-> t.nc]>> \o [x \in 1..(t.nr - h) |-> RowLine(t, h + x)]
+    ELSE LET first == IF Header = "dup" /\ ~t.hdr /\ t.nr > 1 THEN 1 ELSE 2
+         IN <<RowLine(t, 1), [t |-> "sep", n |-> t.nc]>> \o [x \in 1..(t.nr - first + 1) |-> RowLine(t, first + x - 1)]
 
 ListLines(items) == [n \in 1..Len(items) |-> [t |-> "li", ind |-> 2 * items[n].d, k |-> items[n].k, s |-> items[n].w]]
 
